@@ -475,6 +475,12 @@ func (r *SqlManager) transactionHelper(ctx context.Context, operation func(tx *g
 				if err := tx.Where("id = ?", change.DIDDocumentVersionID).Delete(&orm.DidDocument{}).Error; err != nil {
 					return err
 				}
+				// a DID that was never created must not stay behind: the subject would list DIDs that do not resolve and could not be created again
+				if change.Type == orm.DIDChangeCreated {
+					if err := tx.Where("id = ?", change.DIDDocumentVersion.DID.ID).Delete(&orm.DID{}).Error; err != nil {
+						return err
+					}
+				}
 			}
 		} else {
 			// delete all changes
@@ -591,6 +597,13 @@ func (r *SqlManager) Rollback(ctx context.Context) {
 					err := tx.Where("id = ?", change.DIDDocumentVersionID).Delete(&orm.DidDocument{}).Error
 					if err != nil {
 						return err
+					}
+					// same as in transactionHelper: an uncommitted creation also takes its DID away
+					if change.Type == orm.DIDChangeCreated {
+						err = tx.Where("id = ?", change.DIDDocumentVersion.DID.ID).Delete(&orm.DID{}).Error
+						if err != nil {
+							return err
+						}
 					}
 				}
 			}
